@@ -538,3 +538,8 @@ PROPS["C20"]["level_text"] += (" E2, DiskIO::batch_write_inner (io_uring path), 
                                "registry slot i, which is marked in flight before the entry is pushed and unqueued again if the push fails – so memory the kernel may still read "
                                "after an indeterminate failure is leaked by the registry, never freed or reused.")
 PROPS["C20"]["functions"] += [IO + "::batch_write_inner"]
+# the retirement guard consulted by process_deletions (shared with C02): memo soundness + re-evaluation
+PROPS["C09"]["kani"].append(H(RECORD, "c02_successor_durability_walk_chain2", "successor_is_durable_or_deleted on a two-successor chain equals the reference walk, marks a record `successor_safe` only if that record's own chain is durable/deleted, and gives the same answer when evaluated again (the retirement queue is re-examined every flush round, also after a failed batch)", "symbolic sectors/refcounts", timeout=900))
+PROPS["C09"]["functions"].append(RECORD + "::successor_is_durable_or_deleted")
+PROPS["C09"]["level_text"] += " E1: the retirement guard successor_is_durable_or_deleted (two-successor chains, symbolic sectors/refcounts) equals the reference walk on first AND repeated evaluation and never memoises `safe` on a record whose own successor chain is not durable or deleted – so a failed batch followed by another retirement pass cannot retire the last durable generation."
+PROPS["C02"]["level_text"] += " The successor-walk harness also decides memo soundness and re-evaluation (shared with C09)."
